@@ -35,6 +35,7 @@ QInit(cap, hasEH) ==
     \* which keeps the monitor a function of "what happened", not of event positions):
     okAtCall  |-> <<>>,   \* metric -> accepted metrics that had already returned at that moment
     delAtCall |-> <<>>,   \* metric -> metrics that had already been delivered at that moment
+    emitting |-> <<>>,    \* metric -> thread, for emit calls in progress
     inSink  |-> NoM,      \* metric currently inside the wrapped sink
     sinkTid |-> 0,
     pendErr |-> "",       \* error returned by the wrapped sink and not yet seen by the handler
@@ -58,7 +59,7 @@ Undelivered(q) == q.okret \ q.deliv
 QECall(q, h, m, t) ==
   LET v == (IF h \notin q.handles THEN {<<"C08", "harness-error-emit-on-dead-handle">>} ELSE {})
            \cup (IF m \in q.calls THEN {<<"C08", "harness-error-duplicate-metric">>} ELSE {})
-  IN [Flag(q, v) EXCEPT !.calls = @ \cup {m}, !.drivers = @ \cup {t},
+  IN [Flag(q, v) EXCEPT !.calls = @ \cup {m}, !.drivers = @ \cup {t}, !.emitting = Put(@, m, t),
                         !.okAtCall = Put(@, m, q.okret), !.delAtCall = Put(@, m, q.deliv)]
 
 \* metrics that may have been in the queue at some moment of m's emit call: started by now, never
@@ -70,6 +71,7 @@ MinQ(q, m) == Cardinality({x \in q.okAtCall[m] : x # m /\ x \notin q.deliv})
 QERet(q, m, ok, n, msg, len) ==
   LET known == Has(q.okAtCall, m) /\ Has(q.delAtCall, m)
       q1 == [q EXCEPT !.okret = IF ok THEN @ \cup {m} ELSE @, !.refused = IF ok THEN @ ELSE @ \cup {m},
+                      !.emitting = IF Has(@, m) THEN Del(@, m) ELSE @,
                       !.delAtCall = IF known THEN Del(@, m) ELSE @,
                       \* okAtCall is still needed for the order rule until m is delivered
                       !.okAtCall = IF known /\ (~ok \/ m \in q.deliv) THEN Del(@, m) ELSE @]
@@ -83,12 +85,21 @@ QERet(q, m, ok, n, msg, len) ==
                   THEN {<<"C10", "accepted-although-the-queue-was-full">>} ELSE {})
             \cup (IF ok /\ q.cap # UNBOUNDED /\ Cardinality(Undelivered(q1)) > q.cap + 1
                   THEN {<<"C10", "more-metrics-queued-than-the-capacity">>} ELSE {})
+            \* while the worker is inside the wrapped sink it holds no other metric: everything undelivered is in the queue
+            \cup (IF ok /\ q.cap # UNBOUNDED /\ q.inSink # NoM /\ Cardinality(Undelivered(q1)) > q.cap
+                  THEN {<<"C10", "more-metrics-queued-than-the-capacity-while-the-worker-is-busy">>} ELSE {})
             \* C10: errors of the wrapped sink never surface in an emit result
             \cup (IF ~ok /\ msg \notin {"channel full", "channel disconnected"}
                   THEN {<<"C10", "emit-error-is-not-a-queue-error">>} ELSE {})
             \* C08: a refused metric must never reach the wrapped sink
             \cup (IF ~ok /\ m \in q.deliv THEN {<<"C08", "refused-metric-was-delivered">>} ELSE {})
   IN Flag(q1, v)
+
+\* any other method of the wrapped sink (flush, stats) was entered on thread t: legitimate when the caller asked for
+\* flush()/stats() itself, never while that thread is inside emit (C10: emit never runs the wrapped sink on the caller's thread)
+QWOther(q, t) ==
+  Flag(q, IF \E m \in DOMAIN q.emitting : q.emitting[m] = t
+          THEN {<<"C10", "emit-ran-the-wrapped-sink-on-the-caller-thread">>} ELSE {})
 
 QEPanic(q, m) == Flag(q, {<<"C10", "panic-unwound-into-the-caller">>, <<"C20", "panic-in-emit">>})
 QEHang(q, m)  == Flag(q, {<<"C10", "emit-did-not-return-while-the-wrapped-sink-was-blocked">>})
